@@ -20,10 +20,19 @@ abbrev Text := List Char
 abbrev Bytes := List UInt8
 abbrev Name := List Char
 
-/-- a Python argument value, as far as `isinstance(text, (str, bytes))` can tell -/
+/-- the concrete class of a text argument: exactly `str` / `bytes`, or a proper subclass of it
+    (oslo_i18n `Message`, a `str`-mixin `Enum` member, a tagged `bytes` type, …).  The code tests
+    `isinstance`, so no function below looks at it; it is carried so that the theorems say
+    "for every instance of `str`", not "for every exact `str`". -/
+inductive Cls | exact | sub
+  deriving DecidableEq, Repr
+
+/-- a Python argument value, as far as `isinstance(text, (str, bytes))` can tell: an instance of
+    `str` (of class `k`) with its character content, an instance of `bytes` with its byte content,
+    or anything else (`None`, `int`, `bytearray`, `memoryview`, `UserString`, …) -/
 inductive Val
-  | str (t : Text)
-  | bytes (b : Bytes)
+  | str (k : Cls) (t : Text)
+  | bytes (k : Cls) (b : Bytes)
   | other
   deriving DecidableEq, Repr
 
@@ -71,8 +80,8 @@ def safeDecode (C : Codecs) (env : Env) (v : Val) (incoming : Option Name) (p : 
     Except Err Text :=
   match v with
   | .other => .error .typeError                       -- line 32-33
-  | .str t => .ok t                                   -- line 35-36
-  | .bytes b =>
+  | .str _ t => .ok t                                 -- line 35-36 (isinstance: any class)
+  | .bytes _ b =>
     match C.decode (resolve env incoming) p b with    -- line 43
     | .error .unicodeDecodeError => C.decode utf8Name p b   -- line 44, 57
     | r => r
@@ -82,12 +91,12 @@ def safeEncode (C : Codecs) (env : Env) (v : Val) (incoming : Option Name) (enco
     (p : Policy) : Except Err Bytes :=
   match v with
   | .other => .error .typeError                       -- line 78-79
-  | .str t => C.encode (lowerName encoding) p t       -- line 91-92 (name lower-cased at 88-89)
-  | .bytes b =>
+  | .str _ t => C.encode (lowerName encoding) p t     -- line 91-92 (name lower-cased at 88-89)
+  | .bytes k b =>
     let inc := lowerName (resolve env incoming)       -- line 81-87
     let enc := lowerName encoding                     -- line 88-89
     if b ≠ [] ∧ enc ≠ inc then                        -- line 93
-      match safeDecode C env (.bytes b) (some inc) p with   -- line 95
+      match safeDecode C env (.bytes k b) (some inc) p with   -- line 95
       | .ok t => C.encode enc p t                     -- line 96
       | .error e => .error e
     else .ok b                                        -- line 97-98
@@ -95,8 +104,8 @@ def safeEncode (C : Codecs) (env : Env) (v : Val) (incoming : Option Name) (enco
 /-- `to_utf8(text)` (encodeutils.py:101-114) -/
 def toUtf8 (C : Codecs) (v : Val) : Except Err Bytes :=
   match v with
-  | .bytes b => .ok b
-  | .str t => C.encode utf8Name .strict t
+  | .bytes _ b => .ok b                               -- line 108: isinstance(text, bytes)
+  | .str _ t => C.encode utf8Name .strict t           -- line 110: isinstance(text, str)
   | .other => .error .typeError
 
 /-! ## A concrete codec table: utf-8, latin-1, ascii -/
